@@ -83,6 +83,13 @@ const SEMANTIC: [&str; 16] = [
     "@group(0) @binding(0) var<storage, read_write> big: array<u32>;\n@compute @workgroup_size(1) fn c(@builtin(subgroup_size) s: u32) { big[0] = s; }",
 ];
 
+const NEEDS_DEFAULT_CAPS: [&str; 4] = [
+    "@group(0) @binding(0) var t: texture_cube_array<f32>;\n@group(0) @binding(1) var s: sampler;\n@fragment fn f() -> @location(0) vec4<f32> { return textureSample(t, s, vec3<f32>(0.0), 0); }",
+    "@group(0) @binding(0) var t: texture_depth_cube_array;\n@group(0) @binding(1) var s: sampler_comparison;\n@fragment fn f() -> @location(0) vec4<f32> { return vec4<f32>(textureSampleCompare(t, s, vec3<f32>(0.0), 0, 0.5)); }",
+    "@fragment fn f(@builtin(sample_index) i: u32) -> @location(0) vec4<f32> { return vec4<f32>(f32(i)); }",
+    "struct V { @builtin(position) p: vec4<f32>, @location(0) @interpolate(perspective, sample) c: vec4<f32> }\n@vertex fn v() -> V { var o: V; return o; }\n@fragment fn f(i: V) -> @location(0) vec4<f32> { return i.c; }",
+];
+
 fn bases(seed: u64, k: usize) -> String {
     let mut rng = Rng::new(seed, 0xC17_B000 + k as u64);
     match k % 3 {
@@ -214,6 +221,15 @@ impl Property for C17 {
         for (k, s) in SEMANTIC.iter().enumerate() {
             out.push(mk(format!("semantic{k}/caps=all"), s.to_string(), WgslCapabilities::all()));
             out.push(mk(format!("semantic{k}/caps=empty"), s.to_string(), WgslCapabilities::empty()));
+        }
+        // modules that need CUBE_ARRAY_TEXTURES / MULTISAMPLED_SHADING (naga's `Capabilities::default()`): the validator must run
+        // with exactly the capability set the caller gave - not with defaults or-ed in
+        for (k, s) in NEEDS_DEFAULT_CAPS.iter().enumerate() {
+            for (cn, caps) in [("all", WgslCapabilities::all()), ("empty", WgslCapabilities::empty()), ("default", WgslCapabilities::default()),
+                               ("pc+f64", WgslCapabilities::PUSH_CONSTANT | WgslCapabilities::FLOAT64),
+                               ("all-but-defaults", WgslCapabilities::all().difference(WgslCapabilities::default()))] {
+                out.push(mk(format!("needs-default-cap{k}/caps={cn}"), s.to_string(), caps));
+            }
         }
         // the text goes to the front end exactly as given: byte order marks, NUL and other characters a "helpful" pre-processing
         // step would strip or normalise, before and after an otherwise valid shader (naga decides; the library must agree)
